@@ -21,12 +21,14 @@ import (
 	"github.com/NethermindEth/juno/blockchain"
 	"github.com/NethermindEth/juno/core"
 	"github.com/NethermindEth/juno/core/felt"
+	"github.com/NethermindEth/juno/db"
 	"github.com/NethermindEth/juno/db/memory"
 )
 
 // node is the long-lived process under test plus the reference bookkeeping.
 type node struct {
-	db       *faultdb.DB
+	db       db.KeyValueStore // what juno writes through
+	fdb      *faultdb.DB      // the same store when it is the fault-injecting proxy (nil on Pebble)
 	bc       *blockchain.Blockchain
 	newState bool
 	ref      []*chain.Entry // reference chain the node should hold
@@ -344,7 +346,8 @@ func baseImages(r *ev.Run, newState bool) map[string]func(pruning bool) *node {
 	mk := func(stores ...string) func(pruning bool) *node {
 		// build once, copy per use
 		d := memory.New()
-		n := &node{db: faultdb.Wrap(d), newState: newState}
+		fd0 := faultdb.Wrap(d)
+		n := &node{db: fd0, fdb: fd0, newState: newState}
 		n.bc = chain.NewNode(n.db, newState)
 		for _, s := range stores {
 			if err := storeOp(s).run(n); err != nil {
@@ -353,7 +356,8 @@ func baseImages(r *ev.Run, newState bool) map[string]func(pruning bool) *node {
 		}
 		ref, seen := n.ref, n.seen
 		return func(pruning bool) *node {
-			c := &node{db: faultdb.Wrap(d.Copy()), newState: newState, ref: append([]*chain.Entry{}, ref...), seen: append([]*chain.Entry{}, seen...), pruning: pruning}
+			fdc := faultdb.Wrap(d.Copy())
+			c := &node{db: fdc, fdb: fdc, newState: newState, ref: append([]*chain.Entry{}, ref...), seen: append([]*chain.Entry{}, seen...), pruning: pruning}
 			c.open()
 			return c
 		}
@@ -439,14 +443,14 @@ func TestCheck(t *testing.T) {
 				pruning := strings.Contains(name, "prune")
 				mkNode := func() *node { return mkNodeP(pruning) }
 				openOn := func(d *faultdb.DB) *blockchain.Blockchain {
-					t := &node{db: d, newState: newState, pruning: pruning}
+					t := &node{db: d, fdb: d, newState: newState, pruning: pruning}
 					t.open()
 					return t.bc
 				}
 				key := func(kind string) string { return kind + " " + label }
 				// ---- reference run (no fault): record commit boundaries and reference chains per op ----
 				n := mkNode()
-				n.db.SnapshotAll()
+				n.fdb.SnapshotAll()
 				type boundary struct {
 					commit int
 					ref    []*chain.Entry
@@ -462,21 +466,21 @@ func TestCheck(t *testing.T) {
 						r.Violate(key("op-fails-without-fault "+o.name), map[string]any{"sequence": name, "err": err.Error()})
 						return
 					}
-					bounds = append(bounds, boundary{n.db.Commits(), append([]*chain.Entry{}, n.ref...), n.floor})
+					bounds = append(bounds, boundary{n.fdb.Commits(), append([]*chain.Entry{}, n.ref...), n.floor})
 				}
 				mu.Lock()
 				applicableSeqs++
 				distinct[label+"/"+name] = true
 				mu.Unlock()
-				total := n.db.Commits()
-				finalImage := chain.ImageHash(n.db.Inner())
+				total := n.fdb.Commits()
+				finalImage := chain.ImageHash(n.fdb.Inner())
 				// the long-lived node itself must describe the reference chain at the end
 				if !checkAgainstRef(r, "long-lived node, no fault", name, n.bc, n.ref, n.floor, key, map[string]any{}, n.seen...) {
 					return
 				}
 				// ---- (a) crash after every committed write ----
 				for k := 0; k <= total; k++ {
-					img := n.db.Image(k)
+					img := n.fdb.Image(k)
 					if img == nil {
 						continue
 					}
@@ -523,9 +527,9 @@ func TestCheck(t *testing.T) {
 							r.Violate(key("resumed-prune-fails-after-crash"), map[string]any{"sequence": name, "detail": detail, "err": err.Error()})
 							continue
 						}
-						if chain.ImageHash(rd.Inner()) != chain.ImageHash(n.db.Image(bounds[j+1].commit)) {
+						if chain.ImageHash(rd.Inner()) != chain.ImageHash(n.fdb.Image(bounds[j+1].commit)) {
 							r.Violate(key("resumed-prune-ends-in-a-different-image"), map[string]any{"sequence": name, "detail": detail,
-								"diff": bucketSummary(chain.DiffImages(chain.Image(n.db.Image(bounds[j+1].commit)), chain.Image(rd.Inner())))})
+								"diff": bucketSummary(chain.DiffImages(chain.Image(n.fdb.Image(bounds[j+1].commit)), chain.Image(rd.Inner())))})
 							continue
 						}
 					}
@@ -549,7 +553,7 @@ func TestCheck(t *testing.T) {
 				}
 				if len(seq) <= stagedDepth {
 					// also fail every STAGED write (a Put/Delete/DeleteRange on a batch, before its commit)
-					for k := 1; k <= n.db.Staged(); k++ {
+					for k := 1; k <= n.fdb.Staged(); k++ {
 						faults = append(faults, faultPoint{"staged-write", k})
 					}
 				}
@@ -557,9 +561,9 @@ func TestCheck(t *testing.T) {
 					k := fk.k
 					m := mkNode()
 					if fk.kind == "commit" {
-						m.db.FailAt(k, faultdb.ErrInjected)
+						m.fdb.FailAt(k, faultdb.ErrInjected)
 					} else {
-						m.db.FailStagedAt(k, faultdb.ErrInjected)
+						m.fdb.FailStagedAt(k, faultdb.ErrInjected)
 					}
 					mu.Lock()
 					faultRuns++
@@ -569,7 +573,7 @@ func TestCheck(t *testing.T) {
 					var before string
 					ok := true
 					for i, o := range seq {
-						pre := chain.ImageHash(m.db.Inner())
+						pre := chain.ImageHash(m.fdb.Inner())
 						preRef := append([]*chain.Entry{}, m.ref...)
 						preFloor := m.floor
 						err := o.run(m)
@@ -588,9 +592,9 @@ func TestCheck(t *testing.T) {
 							// a prune is a multi-batch operation: earlier batches stay durable; everything at or above
 							// its target must be intact, and it must be resumable
 							checkFloor = preRef[len(preRef)-1].Block.Number
-						} else if chain.ImageHash(m.db.Inner()) != before { // nothing of the failed operation is durable
+						} else if chain.ImageHash(m.fdb.Inner()) != before { // nothing of the failed operation is durable
 							r.Violate(key("failed-"+opClass(o.name)+"-left-partial-writes"), map[string]any{"sequence": name, "detail": detail,
-								"diff": chain.DiffImages(chain.Image(m.db.Inner()), chain.Image(m.db.Inner()))})
+								"diff": chain.DiffImages(chain.Image(m.fdb.Inner()), chain.Image(m.fdb.Inner()))})
 							ok = false
 							break
 						}
@@ -631,7 +635,7 @@ func TestCheck(t *testing.T) {
 					if !ok {
 						continue
 					}
-					if chain.ImageHash(m.db.Inner()) != finalImage {
+					if chain.ImageHash(m.fdb.Inner()) != finalImage {
 						// tolerated only if observationally identical to the no-fault twin
 						if !checkAgainstRef(r, "long-lived node after recovered fault", name, m.bc, m.ref, m.floor, key, map[string]any{"fault": fk.kind, "k": k}, m.seen...) {
 							continue
@@ -644,6 +648,7 @@ func TestCheck(t *testing.T) {
 			})
 		}
 	}
+	pebbleDurability(r, seqs, ev.Pick(r, 2, 3))
 	r.Set("applicable_sequences", applicableSeqs)
 	r.Set("crash_points", crashRuns)
 	r.Set("fault_points", faultRuns)
@@ -654,7 +659,7 @@ func TestCheck(t *testing.T) {
 		"after an injected failure: no partial writes, the SAME node object still answers like the pre-op chain, the retry succeeds and the run ends like the no-fault twin", depth, len(storeNames), deepDepth))
 	r.Sample(map[string]any{"sequence": "store:A.s0=1 ; persistFilterSnapshot ; revert ; store:empty ; restart-ungraceful", "then": "crash after each commit / fail each commit"})
 	r.Sample(map[string]any{"sequences": len(seqs), "applicable_x_bases_x_backends": applicableSeqs})
-	r.Assume = append(r.Assume, "a committed write (batch) is atomic at the KV seam (backend contract, see C15); crashes are modelled between commits", "memory backend under the faultdb proxy (Pebble's own crash atomicity of a synced batch is trusted)")
+	r.Assume = append(r.Assume, "a committed write (batch) is atomic at the KV seam (backend contract, see C15); crashes are modelled between commits", "crash points inside an operation are enumerated on the memory backend under the faultdb proxy; on pebblev2 (crashable MemFS) a power loss is taken after every operation with only synced data surviving; the crash atomicity of one synced Pebble batch is trusted")
 	r.Finish()
 }
 
